@@ -15,6 +15,12 @@ Row/RowParse.v, Cell/Cell.v, Io/XlsxCell.v mirror these two only).
                       a trailing separator, so that the reader - which drops one empty element after a final
                       separator - gives the empty last element back (`a;;` for ["a", ""]) / it does not (`a;`, read
                       back as ["a"])
+  sheet_keeps_single_columns
+                      RowDataSheet._get_headers: the header of a row that writes ONE column is a column of the sheet /
+                      only headers that stand next to another header in some row are (the header order is read off the
+                      edges between consecutive headers: a one-column row contributes none) - then a sheet of one-column
+                      rows has no header at all (convert_to_tablib raises TypeError) and a one-column row next to wider
+                      rows silently loses its cell
 """
 from gen_tables import Refuse, coq_bool
 
@@ -205,6 +211,59 @@ def _probe_join(notes):
     return keeps
 
 
+# --------------------------------------------------------------------------------------------------------
+def sheet_header_set(subsets):
+    """subsets: list of lists of field names out of a, b, c, d -> the headers RowDataSheet._get_headers gives for the rows
+    that set exactly these fields (sorted; the ORDER of the sheet's columns is not part of the model).  Used by the probe
+    below and by harness/c07.py."""
+    from rpft.parsers.common.cellparser import CellParser
+    from rpft.parsers.common.rowdatasheet import RowDataSheet
+    from rpft.parsers.common.rowparser import ParserModel, RowParser
+
+    class Four(ParserModel):
+        a: str = ""
+        b: str = ""
+        c: str = ""
+        d: str = ""
+
+    rows = [Four(**{n: "v" for n in sub}) for sub in subsets]
+    return sorted(RowDataSheet(RowParser(Four, CellParser()), rows)._get_headers())
+
+
+def _probe_headers(notes):
+    common = [([["a", "b"]], ["a", "b"]), ([["a", "b"], ["b", "c"]], ["a", "b", "c"]), ([], []), ([[]], []),
+              ([["a", "b", "d"], ["a", "d"]], ["a", "b", "d"]), ([["a", "b"], ["a"]], ["a", "b"])]
+    cases = [([["a"]], ["a"], []), ([["a"], ["a"]], ["a"], []), ([["a"], ["b"]], ["a", "b"], []),
+             ([["a", "b"], ["c"]], ["a", "b", "c"], ["a", "b"]), ([["c"], ["a", "b"], ["d"]], ["a", "b", "c", "d"], ["a", "b"]),
+             ([["a", "b"], ["b"], ["d"]], ["a", "b", "d"], ["a", "b"])]
+
+    def run(subsets):
+        try:
+            return sheet_header_set(subsets)
+        except Exception as e:
+            raise Refuse(f"header probe: RowDataSheet._get_headers on rows {subsets!r} raises {type(e).__name__}: {e}")
+
+    for subsets, want in common:
+        if run(subsets) != want:
+            raise Refuse(f"header probe: rows {subsets!r} give the headers {run(subsets)!r}, expected {want!r} on either tree")
+    verdicts = set()
+    for subsets, kept, lost in cases:
+        got = run(subsets)
+        if got == kept:
+            verdicts.add(True)
+        elif got == lost:
+            verdicts.add(False)
+        else:
+            raise Refuse(f"header probe: rows {subsets!r} give the headers {got!r}: neither {kept!r} nor {lost!r}")
+    if len(verdicts) != 1:
+        raise Refuse("header probe: the header of a one-column row is kept in some sheets and lost in others")
+    keeps = verdicts.pop()
+    notes.append(f"sheet_keeps_single_columns={keeps}: PROBED on RowDataSheet._get_headers ({len(common)} sheets whose rows all have "
+                 f"two or more columns or share their single one, {len(cases)} sheets with a one-column row: its header kept in all: "
+                 "True; lost in all: False; anything else refused)")
+    return keeps
+
+
 def tables_rowfix(out, notes):
     out.append("")
     out.append("(* ---- row codec repairs (translator/tables_rowfix.py) ---- *)")
@@ -229,6 +288,13 @@ def tables_rowfix(out, notes):
     except Exception as e:
         raise Refuse(f"join probe failed: {type(e).__name__}: {e}")
     out.append(f"Definition join_keeps_blank_last : bool := {coq_bool(jk)}.")
+    try:
+        hk = _probe_headers(notes)
+    except Refuse:
+        raise
+    except Exception as e:
+        raise Refuse(f"header probe failed: {type(e).__name__}: {e}")
+    out.append(f"Definition sheet_keeps_single_columns : bool := {coq_bool(hk)}.")
 
 
 GENERATORS = [tables_rowfix]
